@@ -220,13 +220,7 @@ func (t *FnTrans) edge(from, to *ssa.BasicBlock, cond string, st *HeapState) {
 }
 
 func (t *FnTrans) alloc(x *ssa.Alloc, st *HeapState, reach string) {
-	t.declare("ALLOC0", "Int")
-	name := t.declare(t.fresh("alloc."+x.Comment), "Int")
-	t.assume("true", sx(">", name, "ALLOC0"), "fresh allocation")
-	for _, o := range t.localRefs {
-		t.assume("true", not(eq(name, o)), "allocations are distinct")
-	}
-	t.localRefs = append(t.localRefs, name)
+	name := t.allocRef("alloc." + x.Comment)
 	el := x.Type().Underlying().(*types.Pointer).Elem()
 	// zero-initialise
 	t.store(st, t.cellLoc(el, name), t.zeroVal(el))
@@ -289,7 +283,36 @@ func (t *FnTrans) unopInstr(x *ssa.UnOp, st *HeapState, reach string) {
 	}
 }
 
+// rootIsLocal: the address is derived from an allocation made by this function.
+func rootIsLocal(v ssa.Value) bool {
+	for i := 0; i < 20; i++ {
+		switch a := v.(type) {
+		case *ssa.Alloc, *ssa.MakeSlice, *ssa.MakeMap:
+			return true
+		case *ssa.FieldAddr:
+			v = a.X
+		case *ssa.IndexAddr:
+			v = a.X
+		case *ssa.Slice:
+			v = a.X
+		default:
+			return false
+		}
+	}
+	return false
+}
+
+// frameCheck: a function declared `pure` must not write memory it did not allocate.
+func (t *FnTrans) frameCheck(what string, pos token.Pos, reach string) {
+	if t.con != nil && t.con.Pure && !t.con.Assumed {
+		t.addObl("frame", what, reach, Formula{Raw: "false"}, pos, "pure function writes caller-visible memory")
+	}
+}
+
 func (t *FnTrans) storeInstr(x *ssa.Store, st *HeapState, reach string) {
+	if !rootIsLocal(x.Addr) {
+		t.frameCheck("store:"+t.srcText(x.Pos()), x.Pos(), reach)
+	}
 	p := t.val(x.Addr)
 	l, ok := t.locOf(p, x.Addr.Type())
 	if !ok {
@@ -470,13 +493,7 @@ func (t *FnTrans) makeSlice(x *ssa.MakeSlice, st *HeapState, reach string) {
 	}
 	z := t.mode.intLit64(0, 64)
 	t.safety("makelen", x.Pos(), reach, and(t.cmpIdx("<=", z, ln), t.cmpIdx("<=", ln, cp)))
-	t.declare("ALLOC0", "Int")
-	name := t.declare(t.fresh("mkslice"), "Int")
-	t.assume("true", sx(">", name, "ALLOC0"), "fresh allocation")
-	for _, o := range t.localRefs {
-		t.assume("true", not(eq(name, o)), "allocations are distinct")
-	}
-	t.localRefs = append(t.localRefs, name)
+	name := t.allocRef("mkslice")
 	el := x.Type().Underlying().(*types.Slice).Elem()
 	if es := t.mode.scalarSort(el); es != "" {
 		comp := "B." + t.sortKey(el)
@@ -500,8 +517,7 @@ func (t *FnTrans) convertInstr(x *ssa.Convert, st *HeapState, reach string) {
 				t.assume(reach, and(eq(r.Sub[2].S, ln), eq(r.Sub[3].S, ln), eq(r.Sub[1].S, t.mode.intLit64(0, 64))), "len([]byte(s)) == len(s)")
 				// content link: bytes equal str.at (instantiated on demand via function)
 				if b, ok := sl.Elem().Underlying().(*types.Basic); ok && b.Kind() == types.Uint8 {
-					t.declare("ALLOC0", "Int")
-					t.assume(reach, sx(">", r.Sub[0].S, "ALLOC0"), "fresh allocation for []byte(s)")
+					_ = b
 				}
 			}
 			t.setVal(x, r)
@@ -601,13 +617,7 @@ func (t *FnTrans) mapValComps(mt *types.Map) []compDesc {
 }
 
 func (t *FnTrans) makeMap(x *ssa.MakeMap, st *HeapState, reach string) {
-	t.declare("ALLOC0", "Int")
-	name := t.declare(t.fresh("mkmap"), "Int")
-	t.assume("true", sx(">", name, "ALLOC0"), "fresh allocation")
-	for _, o := range t.localRefs {
-		t.assume("true", not(eq(name, o)), "allocations are distinct")
-	}
-	t.localRefs = append(t.localRefs, name)
+	name := t.allocRef("mkmap")
 	mt := x.Type().Underlying().(*types.Map)
 	if comp, srt, ks, ok := t.mapComps(mt); ok {
 		arr := t.heapGet(st, comp, srt)
@@ -681,6 +691,9 @@ func (t *FnTrans) lookup(x *ssa.Lookup, st *HeapState, reach string) {
 
 func (t *FnTrans) mapUpdate(x *ssa.MapUpdate, st *HeapState, reach string, b *ssa.BasicBlock, idx int) {
 	t.siteHook("mapupdate", x, b, idx, st, reach)
+	if !rootIsLocal(x.Map) {
+		t.frameCheck("mapupdate:"+t.srcText(x.Pos()), x.Pos(), reach)
+	}
 	mt := x.Map.Type().Underlying().(*types.Map)
 	m := t.val(x.Map)
 	k := t.materialize(t.val(x.Key), mt.Key())
